@@ -34,16 +34,26 @@ Section C16.
   Proof. eapply out_name_neq; eauto. Qed.
 
   (* ---- the shapes of the file system --------------------------------------------------- *)
+  (* Unless the source checks that the output name does not lead to the input file (regenerated flag), -f on an operand
+     that is a symbolic link is outside the theorem (see C16_force_symlink_refuted). *)
+  Definition plain : Prop :=
+    output_init_checks_same_file = true \/ (c_force cf = true -> forall t, nlook b op <> Some (DSym t)).
+
+  (* the operand still leads to the same file *)
+  Definition rk (f : fs) : Prop :=
+    plain -> forall i, resolve b SYMLOOP_MAX op = SOk i -> resolve f SYMLOOP_MAX op = SOk i.
+
   Definition fsA (f : fs) : Prop :=
     keeps b f /\ (forall p, p <> q -> nlook f p = nlook b p) /\
-    (nlook f q = nlook b q \/ (regf = true /\ c_force cf = true /\ nlook f q = None)).
+    (nlook f q = nlook b q \/ (regf = true /\ c_force cf = true /\ nlook f q = None)) /\ rk f.
 
   Definition qfree : Prop := nlook b q = None \/ (regf = true /\ c_force cf = true).
 
   Definition fsB (cm : bool) (j : N) (w : bytes) (f : fs) : Prop :=
     qfree /\ ilook b j = None /\ keeps b f /\ (forall p, p <> q -> nlook f p = nlook b p) /\
     nlook f q = Some (DLink j) /\
-    exists nd, ilook f j = Some nd /\ i_kind nd = KReg /\ i_committed nd = cm /\ i_data nd = w.
+    (exists nd, ilook f j = Some nd /\ i_kind nd = KReg /\ i_committed nd = cm /\ i_data nd = w) /\
+    rk f /\ (forall i, resolve b SYMLOOP_MAX op = SOk i -> i <> j).
 
   Definition fsD (j : N) (w : bytes) (f : fs) : Prop :=
     ilook b j = None /\ keeps b f /\ (forall p, p <> q -> p <> op -> nlook f p = nlook b p) /\
@@ -52,12 +62,8 @@ Section C16.
     (nlook f op = nlook b op \/ nlook f op = None).
 
   (* w is the complete output for the operand's content *)
-  (* with -f a symbolic link is followed: then "the input" is not what the operand names (see C16_force_symlink_refuted) *)
-  Definition plain : Prop := c_force cf = true -> forall t, nlook b op <> Some (DSym t).
-
   Definition Wok (w : bytes) : Prop :=
-    plain ->
-    exists iin ndin, nlook b op = Some (DLink iin) /\ ilook b iin = Some ndin /\
+    exists iin ndin, resolve b SYMLOOP_MAX op = SOk iin /\ ilook b iin = Some ndin /\
                      expected_output codec cf (i_data ndin) = Some w.
 
   Definition second (f : fs) (rm : bool) : Prop :=
@@ -84,10 +90,21 @@ Section C16.
 
   (* ---- file system facts ------------------------------------------------------------------------ *)
   Lemma fsA_refl : fsA b.
-  Proof. repeat split; auto. intros i nd H. exact H. Qed.
+  Proof. split; [intros i nd H; exact H|]. split; [auto|]. split; [left; reflexivity|]. intros _ i H. exact H. Qed.
+
+  Lemma rk_names f f' : f_names f' = f_names f -> rk f -> rk f'.
+  Proof. intros E H Hp i Hi. rewrite (resolve_names_eq f f' _ _ E). apply H; auto. Qed.
+
+  Lemma rk_frame f f' :
+    (forall p', p' <> q -> nlook f' p' = nlook f p') ->
+    (plain -> forall i, resolve f SYMLOOP_MAX op = SOk i -> onchain f SYMLOOP_MAX op q = false) ->
+    rk f -> rk f'.
+  Proof.
+    intros Hn Hc H Hp i Hi. specialize (H Hp i Hi). rewrite (resolve_frame f f' q _ _ Hn); auto. eapply Hc; eauto.
+  Qed.
 
   Lemma fsA_stdout f o : fsA f -> fsA (set_stdout f o).
-  Proof. intros (H1 & H2 & H3). repeat split; auto. Qed.
+  Proof. intros (H1 & H2 & H3 & H4). split; [exact H1|]. split; [exact H2|]. split; [exact H3|]. eapply rk_names; eauto. Qed.
 
   Lemma read_fs f iin : fst (sys_read f iin) = f.
   Proof. unfold sys_read. destruct (ilook f iin) as [nd|]; [destruct (i_kind nd)|]; reflexivity. Qed.
@@ -95,32 +112,58 @@ Section C16.
   Lemma read_not_hang f iin : snd (sys_read f iin) <> SHang.
   Proof. unfold sys_read. destruct (ilook f iin) as [nd|]; [destruct (i_kind nd)|]; discriminate. Qed.
 
-  Lemma fsA_force_unlink f : regf = true -> c_force cf = true -> fsA f -> fsA (fst (sys_unlink f q)).
+  (* -f: the output name may be unlinked if it is not on the way from the operand to its file *)
+  Lemma fsA_force_unlink :
+    regf = true -> c_force cf = true ->
+    (plain -> forall i, resolve b SYMLOOP_MAX op = SOk i -> onchain b SYMLOOP_MAX op q = false) ->
+    fsA (fst (sys_unlink b q)).
   Proof.
-    intros Hr Hf (H1 & H2 & H3). repeat split.
+    intros Hr Hf Hc. destruct fsA_refl as (H1 & H2 & H3 & H4). split; [|split; [|split]].
     - intros i nd Hi. rewrite unlink_ilook. auto.
     - intros p Hp. rewrite unlink_nlook_other; auto.
-    - destruct (unlink_result f q) as [[_ E]|[e [_ E]]].
+    - destruct (unlink_result b q) as [[_ E]|[e [_ E]]].
       + right. auto.
       + rewrite E. exact H3.
+    - eapply rk_frame; [| exact Hc | exact H4]. intros p' Hp'. apply unlink_nlook_other. auto.
   Qed.
 
   Lemma fsA_creat f m u g t j :
     fsA f -> snd (sys_creat_excl f q m u g t) = SOk j -> fsB false j [] (fst (sys_creat_excl f q m u g t)).
   Proof.
-    intros (H1 & H2 & H3) Hc. destruct (creat_ok _ _ _ _ _ _ _ Hc) as (Hfree & Hfresh & Ef). rewrite Ef.
+    intros (H1 & H2 & H3 & H4) Hc. destruct (creat_ok _ _ _ _ _ _ _ Hc) as (Hfree & Hfresh & Ef). rewrite Ef.
     assert (Hj : ilook f j = None) by (rewrite Hfresh; apply fresh_not_in_inodes).
     assert (Hbj : ilook b j = None).
     { destruct (ilook b j) as [nd|] eqn:E; auto. apply H1 in E. congruence. }
-    repeat split.
+    assert (Hnm : forall p', p' <> q ->
+              nlook {| f_names := aset String.eqb q (DLink j) (f_names f);
+                       f_inodes := aset N.eqb j {| i_kind := KReg; i_mode := m; i_uid := u; i_gid := g; i_atime := t;
+                                                   i_mtime := t; i_data := []; i_committed := false |} (f_inodes f);
+                       f_stdout := f_stdout f |} p' = nlook f p').
+    { intros p' Hp. unfold nlook. cbn [f_names]. apply (alook_aset_neq String.eqb String.eqb_eq). auto. }
+    split; [|split; [|split; [|split; [|split; [|split; [|split]]]]]].
     - destruct H3 as [H3|(A & B & _)]; [left; congruence | right; auto].
     - exact Hbj.
     - intros i nd Hi. unfold ilook. cbn [f_inodes]. rewrite (alook_aset_neq N.eqb N.eqb_eq).
       + apply H1. exact Hi.
       + intros ->. congruence.
-    - intros p Hp. unfold nlook. cbn [f_names]. rewrite (alook_aset_neq String.eqb String.eqb_eq); auto. apply H2; auto.
+    - intros p Hp. rewrite Hnm; auto.
     - unfold nlook. cbn [f_names]. apply (alook_aset_eq String.eqb String.eqb_eq).
     - eexists. split; [unfold ilook; cbn [f_inodes]; apply (alook_aset_eq N.eqb N.eqb_eq)|]. repeat split.
+    - eapply rk_frame; [exact Hnm | | exact H4]. intros Hp i Hi. eapply onchain_free; eauto.
+    - (* the file the operand leads to is named in f, so it is not the new inode *)
+      intros i Hi Eij. subst i.
+      destruct (nlook b op) as [[i0|t0]|] eqn:Eop.
+      + (* plain link: no hypothesis needed *)
+        rewrite (resolve_link _ _ _ _ Eop) in Hi. inversion Hi; subst.
+        assert (Hf : nlook f op = Some (DLink j)) by (rewrite H2; auto; intro E; apply q_neq_op; congruence).
+        apply fresh_not_named in Hf. congruence.
+      + (* a symbolic link: its target chain exists in b; the last name is a plain link to j in b, hence j has an inode
+           or at least a name in b; names other than q are the same in f *)
+        destruct (resolve_named _ _ _ _ Hi) as [p' Hp'].
+        destruct (String.eqb_spec p' q) as [->|Hpq].
+        * destruct H3 as [H3|(_ & _ & H3)]; congruence.
+        * rewrite <- (H2 p' Hpq) in Hp'. apply fresh_not_named in Hp'. congruence.
+      + rewrite (resolve_none _ _ _ Eop) in Hi. discriminate.
   Qed.
 
   (* updating the new inode: older inodes and all names are untouched *)
